@@ -296,7 +296,7 @@ StepExpr(s, e, rest) ==
     [] e.k = "idx" -> [s EXCEPT !.ctl = <<E(e.key), [t |-> "idxread", n |-> e.n]>> \o rest]
     [] e.k = "asgidx" ->
          \* n[key] = e: the target (and its key) first, then the value; n[key] op= e is n[key] = n[key] op e
-         IF e.op = "=" THEN [s EXCEPT !.ctl = <<E(e.key), E(e.e), [t |-> "idxwrite", n |-> e.n]>> \o rest]
+         IF e.op = "=" THEN [s EXCEPT !.ctl = <<E(e.key), [t |-> "idxprobe", n |-> e.n], E(e.e), [t |-> "idxwrite", n |-> e.n]>> \o rest]
          ELSE [s EXCEPT !.ctl = <<E(e.key), E([k |-> "idx", n |-> e.n, key |-> e.key]), E(e.e),
                                   [t |-> "bin", op |-> SubSeq(e.op, 1, 1)], [t |-> "idxwrite", n |-> e.n]>> \o rest]
     [] e.k = "incidx" -> [s EXCEPT !.ctl = <<E(e.key), [t |-> "incidx", n |-> e.n, op |-> e.op, post |-> e.post]>> \o rest]
@@ -460,6 +460,18 @@ StepOp(s, it, rest) ==
          IF r.k = "ok" THEN Mark([r.s EXCEPT !.ctl = rest, !.vs = <<r.v>> \o Tail(s.vs)], it.n # "$" /\ Captured(s.frames, it.n), "captured " \o it.n)
          ELSE IF r.k = "err" THEN Fault([r.s EXCEPT !.vs = Tail(s.vs)], rest)
          ELSE Opened(s, "index read " \o it.n)
+    [] it.t = "idxprobe" ->     \* the target n[key] is looked up (not yet written) before the value is evaluated:
+                                \* an unset n becomes a container here, and the look-up's own faults come first
+         LET key == s.vs[1]
+             s1 == Materialise(s, it.n, key)
+             b == BaseOf(s1, it.n)
+         IN IF b.t = "ref"
+            THEN LET c == s1.heap[b.id] IN
+                 IF key.t \notin {"num", "str"} THEN Fault([s1 EXCEPT !.vs = Tail(s.vs)], rest)
+                 ELSE IF c.t = "arr" /\ key.t = "num" /\ ArrIdx(Len(c.items), key.v) < 0 THEN Fault([s1 EXCEPT !.vs = Tail(s.vs)], rest)
+                 ELSE [s1 EXCEPT !.ctl = rest]
+            ELSE IF key.t \notin {"num", "str"} THEN Opened(s, "index target on a scalar")
+            ELSE [s1 EXCEPT !.ctl = rest]
     [] it.t = "idxwrite" ->     \* vs: value on top, key below; the value of the assignment is the value
          LET r == IdxWrite(s, it.n, s.vs[2], s.vs[1]) IN
          IF s.vs[1].t = "unset" THEN Opened(s, "store unset")
